@@ -19,6 +19,7 @@ def run_one(name, patch, props):
             r = subprocess.run([os.path.join(ROOT, "bin/wsverif"), "-repo", d, "-verif", ROOT, "-no-evidence", "-prop", prop],
                                env=ENV, capture_output=True, text=True)
             rules = sorted(set(l.split("rule=")[1].split()[0] for l in r.stdout.splitlines() if "rule=" in l))
+            rules = [x for x in rules if not x.endswith(".registered")]
             out[prop] = rules
         return name, "ran", out
     finally:
